@@ -204,7 +204,7 @@ static void on_fpe(int sig) { if (fpe_armed) { fpe_armed = 0; siglongjmp(fpe_jmp
 #define GUARD_FPE(stmt) do { if (!sigsetjmp(fpe_jmp, 1)) { fpe_armed = 1; stmt; fpe_armed = 0; } else { __atomic_add_fetch(fpe_count, 1, __ATOMIC_RELAXED); } } while (0)
 
 /* ---------------- trapezoids ---------------- */
-static const int32_t TY[] = { 0, E, -E, 0x8000, F1, 3 * F1 + E, 4 * F1, 100 * F1, -100 * F1, 32767 * F1, -32767 * F1, 32767 * F1 + 0xfd70, (int32_t)0x80000000, (int32_t)0x80000000 + 0x8000, 0x7fffffff };
+static const int32_t TY[] = { 0, E, -E, 0x8000, F1, 3 * F1 + E, 4 * F1, 4 * F1 + 0x8000, 5 * F1 - E, 100 * F1, -100 * F1, 32767 * F1, -32767 * F1, 32767 * F1 + 0xfd70, (int32_t)0x80000000, (int32_t)0x80000000 + 0x8000, 0x7fffffff };
 #define NTY ((int)(sizeof TY / sizeof TY[0]))
 static const int32_t TX[] = { 0, -E, 0x8000, 5 * F1 + E, 6 * F1, -100 * F1, 100 * F1, 32767 * F1, (int32_t)0x80000000, 0x7fffffff };
 #define NTX ((int)(sizeof TX / sizeof TX[0]))
@@ -212,8 +212,8 @@ static const int32_t TX[] = { 0, -E, 0x8000, 5 * F1 + E, 6 * F1, -100 * F1, 100 
 static void trap_case(uint64_t idx, void *vctx)
 {
     int th = vctx != NULL;
-    /* quick: 9 of the 15 y values and 7 of the 10 x values (the extremes and the in-image ones) */
-    static const int qy[9] = { 0, 1, 3, 5, 7, 9, 11, 12, 14 }, qx[7] = { 0, 1, 3, 4, 7, 8, 9 };
+    /* quick: 9 of the 17 y values and 7 of the 10 x values (the extremes and the in-image ones) */
+    static const int qy[9] = { 0, 3, 5, 7, 8, 11, 13, 14, 16 }, qx[7] = { 0, 1, 3, 4, 7, 8, 9 };
     int nty = th ? NTY : 9, ntx = th ? NTX : 7;
     int ti = (int)(idx % nty); idx /= nty; int bi = (int)(idx % nty); idx /= nty;
     int l1 = (int)(idx % ntx); idx /= ntx; int l2 = (int)(idx % ntx); idx /= ntx; int r1 = (int)(idx % ntx); idx /= ntx;
